@@ -81,6 +81,20 @@ check("C06",
       "covered at solver level in C16); KPM convergence is not modelled.",
       "TLA+ relation (embedding of the explicit twin) checked by TLC on paired real runs + reference validation of the twin",
       "DESIGN.md §4 C06")
+check("C08",
+      "Fock.tla gives boson / ladder / spin-1/2 / fermion (Jordan-Wigner) generators, number operators and functions of "
+      "number operators their action on a truncated product Fock space over GF(p^2) (bosons in the unnormalised "
+      "occupation basis, so all matrix elements are rational; the adjoint carries the weight prod n_i!), the meaning of "
+      "a number-ordered term (creators ascending, f(N), annihilators descending) and the denotation of expression "
+      "trees. Generated expressions are converted and combined by the REAL NumberOrderedForm class; every resulting "
+      "object is logged as data (power tuples + coefficient tables over the basis states, poles flagged) and TLC "
+      "(Trace_Fock) checks on all interior basis states: from_expr = denotation, as_expr round trip, adjoint, product, "
+      "sum, difference, power, (xy)^dagger = y^dagger x^dagger, (xy)z = x(yz), x(y+z) = xy+xz.",
+      "Trusted: TLC/SANY 1.8.0, Json module, sympy for evaluating coefficient expressions at integer occupations, the "
+      "generator's push-down of daggers. Windows: bosons 0..7, ladders -4..4, <=3 modes, total ladder degree <= 6; "
+      "identities are compared `margin` away from the truncation edges.",
+      "TLA+ Fock-space model of the operator algebra as trace-validation oracle (TLC) for NumberOrderedForm results",
+      "DESIGN.md §4 C08")
 check("C09",
       "Dsl.tla holds the mini-language as data and its direct, unoptimised meaning as defining equations per cell (start "
       "pins, hermitian/antihermitian lower blocks, summed lines, diagonal/offdiagonal conditions with the keep/eliminate "
